@@ -127,6 +127,8 @@ class BuiltinMixin:
     if not a:
       return VList([])
     v = self.unopt(a[0])
+    if isinstance(v, VLazy):
+      return VList(v.force())
     if isinstance(v, (VTuple, VList)):
       return VList(v.items)
     if isinstance(v, VSeq):
@@ -139,6 +141,8 @@ class BuiltinMixin:
     if not a:
       return VTuple([])
     v = self.unopt(a[0])
+    if isinstance(v, VLazy):
+      return VTuple(v.force())
     if isinstance(v, (VTuple, VList)):
       return VTuple(v.items)
     if isinstance(v, (VSeq, VMList)):
@@ -449,6 +453,8 @@ class BuiltinMixin:
     """chain.from_iterable(parts): an opaque iterator that delivers its parts one after the other; the ghost
     functions nparts / part_of record them (A2)."""
     parts = a[0]
+    if isinstance(parts, VLazy):
+      parts = VList(parts.force())
     r = z3.Const(self.path.fresh_name('chain'), Obj)
     if isinstance(parts, (VList, VTuple)):
       self.assume(nparts_fn(r) == len(parts.items))
